@@ -205,6 +205,8 @@ def angle_vec(rng, twod, kind):
         th = float(rng.choice([1e-6, 1e-5, 1e-4, 1e-3]))
     elif kind == "nearpi":
         th = np.pi - float(rng.choice([0.0, 1e-9, 1e-7, 1e-5, 1e-3]))
+    elif kind == "large":
+        th = float(rng.uniform(2 * np.pi, 60.0))
     else:
         th = float(rng.uniform(0.05, 3.0))
     return n * th
@@ -336,8 +338,8 @@ def sec_vec2mat(ck, e, T, rng):
             r = np.zeros(3)
             r[ax] = k * np.pi / 2
             cases.append(("quarter", r))
-    for kind in ("any", "near0", "nearpi"):
-        for _ in range(N // 3):
+    for kind in ("any", "near0", "nearpi", "large"):
+        for _ in range(N // 3 if kind != "large" else max(6, N // 10)):
             cases.append((kind, angle_vec(rng, False, kind)))
     worst = 0.0
     for kind, r in cases:
@@ -357,8 +359,16 @@ def sec_vec2mat(ck, e, T, rng):
         if err > TOL:
             ck.fail("mat2vec-roundtrip/" + kind, "rotation_vec2mat(rotation_mat2vec(R)) differs from R by %g for r = %s" % (err, r.tolist()),
                     {"r": r.tolist(), "err": err})
-        # model: Rodrigues formula on n = r/theta, sin, cos (oracle values)
-        if th > am.SMALL_ANGLE and th <= am.MAX_ANGLE:
+        # independent reference (angles of practical size must follow the Rodrigues formula, whatever the thresholds are)
+        if 1e-3 < th < 1e6:
+            n_ = r / th
+            K = np.array([[0, -n_[2], n_[1]], [n_[2], 0, -n_[0]], [-n_[1], n_[0], 0]])
+            ref = np.eye(3) + math.sin(th) * K + (1 - math.cos(th)) * (K @ K)
+            if float(np.max(np.abs(Rm - ref))) > 1e-12:
+                ck.fail("vec2mat/not-the-rotation-by-theta/" + kind, "rotation_vec2mat(%s) is not the rotation by |r| about r/|r|" % r.tolist(),
+                        {"r": r.tolist(), "theta": th})
+        # model: Rodrigues formula on n = r/theta, sin, cos (oracle values); thresholds are the harness's own (1e-30, 1e6)
+        if 1e-30 < th < 1e6:
             n = r / th
             s, c = float(np.sin(th)), float(np.cos(th))
             if kind == "quarter":
@@ -686,7 +696,7 @@ def sec_param(ck, e, T, rng):
 
 def sec_chain(ck, e, T, rng):
     from nipy.algorithms.registration.chain_transform import ChainTransform
-    N = ck.n(24, 400)
+    N = ck.n(16, 400)
     n = 0
     for i in range(N):
         mode = ["quarter", "any", "nearpi", "near0"][i % 4]
@@ -742,7 +752,7 @@ def sec_chain(ck, e, T, rng):
     if not close(ChainTransform(a).apply(x), a.apply(x)):
         ck.fail("chain/default-pre-post", "ChainTransform(t).apply differs from t.apply", {"vec12": a._vec12.tolist()})
     # longer compose / inv chains
-    L = ck.n(20, 300)
+    L = ck.n(12, 300)
     for i in range(L):
         mode = "quarter" if i % 3 == 0 else "any"
         k = int(rng.integers(2, 6))
